@@ -4,6 +4,7 @@ C12 — ORDER BY returns a correctly sorted permutation; LIMIT its first n rows.
 import BW.Proofs.Query
 import BW.Proofs.QueryPost
 import BW.Proofs.Determinism
+import BW.Proofs.HooksOrder
 
 namespace BW.Props.C12
 open BW.Model BW.Proofs.Query BW.Proofs.QueryPost
@@ -64,6 +65,19 @@ theorem order_by_sorted (S : Strs) (cfg : List (Bytes × Bool)) (rows : List Row
     (sortRows S cfg rows).Pairwise fun a b => rowLe S cfg a b = true :=
   BW.Proofs.Determinism.sortRows_sorted S cfg rows hcfg trans total
 
+/-- A key written twice in the ORDER BY list (same direction — two directions are rejected) is kept once by
+    the semantic checker (`orderByBindingsChecker`, modelled in `BW.Model.Hooks.orderCheck` and run against the
+    real hooks on every generated statement): the rewritten list compares any two rows exactly as the list
+    that was written, so the sort is the same. -/
+theorem repeated_keys_change_nothing (S : Strs) (cfg cfg' : List (Bytes × Bool))
+    (h : BW.Model.Hooks.orderCheck cfg = some cfg') (hne : cfg ≠ []) (rows : List Row) :
+    (∀ a b, compareRows S cfg a b = compareRows S cfg' a b) ∧ sortRows S cfg rows = sortRows S cfg' rows :=
+  ⟨BW.Proofs.HooksOrder.dedup_compares_same S cfg cfg' h, BW.Proofs.HooksOrder.dedup_sorts_same S cfg cfg' h rows hne⟩
+
+/-- Non-vacuity: `?a desc, ?b, ?a desc` is rewritten to `?a desc, ?b`; `?a desc, ?a asc` is rejected. -/
+example : BW.Model.Hooks.orderCheck [([63, 97], true), ([63, 98], false), ([63, 97], true)] = some [([63, 97], true), ([63, 98], false)] ∧
+    BW.Model.Hooks.orderCheck [([63, 97], true), ([63, 97], false)] = none := by decide
+
 end BW.Props.C12
 
 #print axioms BW.Props.C12.order_by_perm
@@ -77,3 +91,4 @@ end BW.Props.C12
 #print axioms BW.Props.C12.clauses_do_not_change_qualification
 #print axioms BW.Props.C12.pushdown_only_when_harmless
 #print axioms BW.Props.C12.order_by_sorted
+#print axioms BW.Props.C12.repeated_keys_change_nothing
